@@ -14,7 +14,7 @@ for P in "$@"; do
     grep -q -- "--features kurbo" /tmp/seed3/$P/out/$k/README.md 2>/dev/null && FF=kurbo
     grep -q -- "--features rayon" /tmp/seed3/$P/out/$k/README.md 2>/dev/null && FF=rayon
     echo "===== $P seed r3-$k ($D) features=$FF" >> "$LOG"
-    FEATURES=$FF /verif/tools/seedtest.sh /tmp/seed3/$P/out/$k "$D" $P 2>&1 | grep -E "^--- demo|test result|VIOLATION|^\[$P\]|PATCH|error" | grep -v "155 passed\|19 passed\|5 passed; 0 failed" | cut -c1-260 >> "$LOG"
+    FEATURES=$FF /verif/tools/seedtest.sh /tmp/seed3/$P/out/$k "$D" $P 2>&1 | grep -E "^--- demo|test result|VIOLATION|^\[$P\]|PATCH|error" | grep -v "155 passed\|19 passed\|5 passed; 0 failed" | cut -c1-1500 >> "$LOG"
   done
 done
 echo "BATCH DONE" >> "$LOG"
